@@ -21,7 +21,7 @@ SCOPE = '''backend/ninjabackend.py backend/backends.py mintro.py modules/pkgconf
 modules/keyval.py modules/sourceset.py modules/__init__.py coredata.py interpreter/interpreter.py interpreter/mesonmain.py
 interpreter/interpreterobjects.py interpreter/dependencyfallbacks.py utils/universal.py utils/core.py depfile.py dependencies/base.py
 dependencies/pkgconfig.py dependencies/detect.py build.py options.py compilers/compilers.py compilers/mixins/clike.py compilers/mixins/gnu.py
-environment.py msetup.py mconf.py programs.py'''.split()
+environment.py msetup.py mconf.py programs.py linkers/linkers.py linkers/detect.py arglist.py'''.split()
 
 CREATE = re.compile(r"(^|[^A-Za-z_.])set\(|frozenset\(|defaultdict\(set\)|\{[^{}:'\"]+ for |os\.listdir|glob\.glob|os\.scandir|os\.walk|os\.environ(\.items|\.keys|\))")
 
@@ -121,8 +121,16 @@ REGISTRY: T.List[T.Tuple[str, str, str, str]] = [
     ('build.py', 'visited: T.Set[T.Tuple[BuildTargetTypes, bool, bool]] = set()', 'M', 'membership'),
     ('build.py', 'all_langs = set(self.compilers).union', 'D', 'p16_langs (c + cpp + fortran in one target: stdlib link args of the non-link languages)'),
     ('build.py', 'system_dirs = set()', 'M', 'membership'),
+    ('build.py', 'paths.difference_update(', 'M', 'in-place removal from an OrderedSet'),
     ('build.py', 'dirs: T.Set[str] = set()', 'M', 'get_rpath_dirs_from_link_args: membership'),
     ('build.py', 'bdeps: T.Set', 'U', 'get_transitive_build_target_deps: consumed for Windows PATH only'),
+    # ---- linkers / argument lists
+    ('linkers/linkers.py', 'return ([], set())', 'M', 'empty rpath_dirs_to_remove literal'),
+    ('linkers/linkers.py', 'return (args, set())', 'M', 'empty literal'),
+    ('linkers/linkers.py', 'for p in rpath_paths], set())', 'M', 'empty literal'),
+    ('linkers/linkers.py', 'rpath_dirs_to_remove: T.Set[bytes] = set()', 'D', 'p17_extlibs p02 p13 (build_rpath with 3 entries; sorted into intro-install_plan build_rpaths)'),
+    ('arglist.py', 'pre_flush_set: T.Set[str] = set()', 'M', 'membership (dedup while walking ordered deques)'),
+    ('arglist.py', 'post_flush_set: T.Set[str] = set()', 'M', 'membership'),
     # ---- environment / setup / configure
     ('environment.py', 'deprecated_properties', 'M', 'membership'),
     ('msetup.py', 'glob.glob(os.path.join(self.build_dir', 'M', '--wipe: backs up each matching file; operations commute'),
@@ -166,3 +174,59 @@ def scan() -> T.Dict[str, T.Any]:
         'unclassified': [r for r in rows if r[1] == '?'],
         'membership_only': sum(1 for r in rows if r[1] == 'M'),
     }
+
+
+# ---------------------------------------------------------------------------------------------------------------
+# ordered collections (OrderedSet / unique_list / dict keys) created on the way to LINK arguments: which corpus
+# project reaches the function with >= 3 members.  Keyed by (file, function).
+
+LINK_FILES = ['build.py', 'backend/backends.py', 'backend/ninjabackend.py', 'dependencies/pkgconfig.py', 'dependencies/base.py',
+              'linkers/linkers.py', 'compilers/mixins/clike.py', 'arglist.py']
+LINK_PAT = re.compile(r'OrderedSet\(|OrderedSet\[[^\]]*\]\s*=|dict\.fromkeys|unique_list\(|\.keys\(\)')
+
+LINK_REGISTRY: T.Dict[T.Tuple[str, str], str] = {
+    ('build.py', 'validate_sources'): 'error message only',
+    ('build.py', 'get_all_link_deps'): 'p02 p17_extlibs (tests: shared libraries of 3 directories)',
+    ('build.py', 'get_all_linked_targets'): 'p16_langs (3 fortran libraries linked)',
+    ('build.py', 'get_link_dep_subdirs'): 'p02 (shared libraries in 3 subdirectories) p17_extlibs',
+    ('build.py', 'get_dependencies'): 'p02 p09 p16_langs (3+ link_with libraries, transitive)',
+    ('build.py', 'get_internal_static_libraries'): 'p02 (link_whole) p16_langs (3 static libraries)',
+    ('build.py', 'determine_rpath_dirs'): 'p17_extlibs (4-10 rpath directories per target) p02',
+    ('build.py', 'rpaths_for_non_system_absolute_shared_libraries'): 'p17_extlibs (4-10 external library directories, dependencies with their own -Wl,-rpath)',
+    ('build.py', '__post_init__'): 'p16_langs (GeneratedList.depends: 3 custom targets)',
+    ('build.py', 'keys'): 'ConfigurationData.keys: p04 (15 keys, sorted by the writers)',
+    ('backend/backends.py', 'flatten_object_list'): 'p09 (extract_objects) p16_langs',
+    ('backend/backends.py', 'determine_ext_objs'): 'p09 (extract_objects)',
+    ('backend/backends.py', 'get_mingw_extra_paths'): 'not reachable: Windows/mingw only',
+    ('backend/backends.py', 'get_regen_filelist'): 'p11_regen (about 45 build-definition files)',
+    ('backend/ninjabackend.py', 'generate_target'): 'unity-build warning text only',
+    ('backend/ninjabackend.py', 'determine_dep_vapis'): 'not reachable: vala',
+    ('backend/ninjabackend.py', 'generate_vala_compile'): 'not reachable: vala',
+    ('backend/ninjabackend.py', '_link_library'): 'not reachable: rust targets',
+    ('backend/ninjabackend.py', 'generate_rust_target'): 'not reachable: rust targets',
+    ('backend/ninjabackend.py', 'guess_external_link_dependencies'): 'p17_extlibs (declare_dependency link_args with 3 -L and 3 -l)',
+    ('backend/ninjabackend.py', 'generate_clangtool'): 'subset test',
+    ('dependencies/pkgconfig.py', '_search_libs'): 'p17_extlibs (.pc with 3 -L in non-sorted order and 3 -l; 7 packages)',
+    ('linkers/linkers.py', 'build_rpath_args'): 'p17_extlibs (GNU ld: build_rpath/install_rpath with 3 entries + 4-10 directories); other linkers not available',
+    ('compilers/compilers.py', None): 'constant',
+}
+
+
+def link_collections() -> T.List[T.Dict[str, str]]:
+    rows: T.List[T.Dict[str, str]] = []
+    base = os.path.join(common.REPO, 'mesonbuild')
+    for f in LINK_FILES:
+        p = os.path.join(base, f)
+        if not os.path.exists(p):
+            continue
+        fn: T.Optional[str] = None
+        seen: T.Set[T.Tuple[str, T.Optional[str]]] = set()
+        for line in open(p, encoding='utf-8'):
+            m = re.match(r'\s*def (\w+)', line)
+            if m:
+                fn = m.group(1)
+            if LINK_PAT.search(line) and not line.strip().startswith('#') and (f, fn) not in seen:
+                seen.add((f, fn))
+                by = LINK_REGISTRY.get((f, fn))
+                rows.append({'function': f'{f}:{fn}', 'reached_by': by or 'NOT REVIEWED'})
+    return rows
